@@ -970,6 +970,24 @@ def _postfix(self, nostruct):
         elif self.peek() == ('op', '(') and e[0] == 'path':
             self.next()
             e = ('call', e[1], self.args())
+        elif self.peek() == ('op', '['):
+            # `a[i]`, `a[..hi]`, `a[lo..hi]`, `a[lo..=hi]`
+            self.next()
+            def dots():
+                if self.peek() == ('op', '..='):
+                    self.next(); return 'incl'
+                if self.peek() == ('op', '.') and self.peek(1) == ('op', '.'):
+                    self.next(); self.next(); return 'excl'
+                return None
+            d = dots()
+            if d:
+                idx = ('range', None, self.expr(), d == 'incl')
+            else:
+                lo = self.expr(7)     # operands of `..` bind tighter than comparison, looser than arithmetic
+                d = dots()
+                idx = ('range', lo, self.expr(7), d == 'incl') if d else lo
+            self.expect('op', ']')
+            e = ('index', e, idx)
         else:
             return e
 P.postfix = _postfix
@@ -997,6 +1015,11 @@ def _block(self):
             stmts.append(('return', e))
             continue
         e = self.expr()
+        if self.peek() == ('op', '=') and e[0] in ('index', 'path', 'field'):
+            self.next()
+            rhs = self.expr()
+            self.expect('op', ';')
+            stmts.append(('assign', e, rhs)); continue
         if self.accept('op', ';'):
             stmts.append(('expr', e)); continue
         if self.accept('op', '}'):
@@ -1427,6 +1450,100 @@ def gen_meta(repo):
             "end LLFree.Gen.M"]
     return "\n".join(out) + "\n"
 
+class SbufEmit:
+    """`SortedBuffer::add`: iterator searches on (a prefix of) the array, `rotate_left/right(1)` of a sub-slice,
+    assignment of one element; the array is a Lean list of options, statements rebind it"""
+    BUF = ('field', ('path', 'self'), 'buffer')
+    def ex(self, e):
+        k = e[0]
+        if k == 'num': return str(e[1])
+        if k == 'path':
+            if e[1] == 'N': return 'n'
+            if e[1] in ('len', 'pos', 'value'): return e[1]
+            raise TranslateError(f"sbuf: path {e[1]}")
+        if k == 'bin':
+            a, b = self.ex(e[2]), self.ex(e[3])
+            if e[1] in ('<', '>'): return f"(decide ({a} {e[1]} {b}))"
+            if e[1] in ('-', '+'): return f"({a} {e[1]} {b})"
+            raise TranslateError(f"sbuf: operator {e[1]}")
+        if k == 'call' and e[1] == 'Some' and len(e[2]) == 1: return f"(some {self.ex(e[2][0])})"
+        if k == 'mcall' and e[2] == 'unwrap_or' and e[1][0] == 'mcall' and e[1][2] == 'position' and \
+                e[1][1][0] == 'mcall' and e[1][1][2] == 'iter' and not e[1][1][3]:
+            return f"((position {self.pred(e[1][3][0])} {self.slice(e[1][1][1])}).getD {self.ex(e[3][0])})"
+        raise TranslateError(f"sbuf: expression {k}")
+    def slice(self, e):
+        if e == self.BUF: return 'buffer'
+        if e[0] == 'index' and e[1] == self.BUF and e[2][0] == 'range' and e[2][1] is None and not e[2][3]:
+            return f"(buffer.take {self.ex(e[2][2])})"
+        raise TranslateError(f"sbuf: slice {e}")
+    def pred(self, c):
+        if c[0] != 'closure' or c[1] != [('pvar', 'e')]: raise TranslateError("sbuf: closure")
+        b = c[2]
+        if b == ('mcall', ('path', 'e'), 'is_none', []): return "(fun e => e.isNone)"
+        if b[0] == 'mcall' and b[2] == 'is_some_and' and b[1] == ('mcall', ('path', 'e'), 'as_ref', []) and \
+                b[3][0][0] == 'closure' and b[3][0][1] == [('pvar', 'v')] and \
+                b[3][0][2] == ('bin', '<=', ('path', 'value'), ('path', 'v')):
+            return "(fun e => Option.any (fun v => le value v) e)"
+        raise TranslateError(f"sbuf: predicate {b}")
+    def stmts(self, block):
+        """statements that rebind `buffer`; returns a Lean term for the final buffer"""
+        if block[2] is not None: raise TranslateError("sbuf: value block")
+        out = ""
+        for st in block[1]:
+            if st[0] == 'expr' and st[1][0] == 'mcall' and st[1][2] in ('rotate_right', 'rotate_left') and st[1][3] == [('num', 1)]:
+                tgt = st[1][1]
+                if tgt[0] != 'index' or tgt[1] != self.BUF or tgt[2][0] != 'range': raise TranslateError("sbuf: rotate target")
+                _, lo, hi, incl = tgt[2]
+                lo_ = '0' if lo is None else self.ex(lo)
+                hi_ = f"({self.ex(hi)} + 1)" if incl else self.ex(hi)
+                f = 'rotateRight1' if st[1][2] == 'rotate_right' else 'rotateLeft1'
+                out += f"let buffer := {f} buffer {lo_} {hi_}; "
+            elif st[0] == 'assign' and st[1][0] == 'index' and st[1][1] == self.BUF and st[1][2][0] != 'range':
+                out += f"let buffer := buffer.set {self.ex(st[1][2])} {self.ex(st[2])}; "
+            else:
+                raise TranslateError(f"sbuf: statement {st[0]}")
+        return "(" + out + "buffer)"
+    def ifs(self, e):
+        if e is None: return "buffer"
+        if e[0] == 'block': return self.stmts(e)
+        if e[0] == 'if': return f"if {self.ex(e[1])} then {self.stmts(e[2])} else {self.ifs(e[3])}"
+        raise TranslateError("sbuf: if chain")
+
+def gen_sbuf(repo):
+    """`SortedBuffer::add` (util.rs)"""
+    src = read(os.path.join(repo, 'core/src/util.rs'))
+    params, body = extract_fn(src, 'add', within='SortedBuffer<N, T> {')
+    if re.sub(r"\s+", "", params) != "&mutself,value:T": raise TranslateError(f"SortedBuffer::add({params})")
+    if not re.search(r"buffer:\s*\[Option<T>;\s*N\]", src): raise TranslateError("SortedBuffer: field `buffer: [Option<T>; N]`")
+    ast = P(tokenize_str(re.sub(r"//[^\n]*", "", body).replace("&value", "value"))).block()
+    em = SbufEmit()
+    lets = ""
+    stm = list(ast[1]) + ([('expr', ast[2])] if ast[2] is not None else [])
+    if len(stm) != 3: raise TranslateError("SortedBuffer::add: expected two lets and an if chain")
+    ast = ('block', stm, None)
+    for st in ast[1][:2]:
+        if st[0] != 'let' or st[1][0] != 'pvar': raise TranslateError("SortedBuffer::add: let")
+        lets += f"  let {st[1][1]} := {em.ex(st[2])}\n"
+    if ast[1][2][0] != 'expr' or ast[1][2][1][0] != 'if': raise TranslateError("SortedBuffer::add: if chain")
+    out = ["/- GENERATED by tools/rs2lean.py from core/src/util.rs (`SortedBuffer::add`) — do not edit. -/",
+           "namespace LLFree.Gen.S", "",
+           "/-- `Iterator::position` -/",
+           "def position {α : Type} (p : α → Bool) : List α → Option Nat",
+           "  | [] => none", "  | x :: xs => if p x then some 0 else (position p xs).map (· + 1)", "",
+           "/-- `slice[a..b].rotate_right(1)` -/",
+           "def rotateRight1 {α : Type} (l : List α) (a b : Nat) : List α :=",
+           "  let mid := (l.drop a).take (b - a)",
+           "  l.take a ++ (match mid.getLast? with | none => [] | some x => x :: mid.dropLast) ++ l.drop b", "",
+           "/-- `slice[a..b].rotate_left(1)` -/",
+           "def rotateLeft1 {α : Type} (l : List α) (a b : Nat) : List α :=",
+           "  let mid := (l.drop a).take (b - a)",
+           "  l.take a ++ (match mid with | [] => [] | x :: xs => xs ++ [x]) ++ l.drop b", "",
+           "/-- `SortedBuffer::<N, T>::add(&mut self, value)`; `le a b` is `a <= b` of `T`, `buffer` the array `[Option<T>; N]` -/",
+           "def add {τ : Type} (le : τ → τ → Bool) (n : Nat) (buffer : List (Option τ)) (value : τ) : List (Option τ) :=",
+           lets + "  " + em.ifs(ast[1][2][1]), "",
+           "end LLFree.Gen.S"]
+    return "\n".join(out) + "\n"
+
 def gen_huge(repo):
     """`impl HugeEntry` (lower.rs): a u16 counter with `u16::MAX` as the marker of a huge allocation"""
     src = read(repo + '/core/src/lower.rs')
@@ -1465,7 +1582,7 @@ def gen_huge(repo):
     out.append("end LLFree.Gen.H")
     return "\n".join(out) + "\n"
 
-GENERATORS = {'Consts': gen_consts, 'Fza': gen_fza, 'Leaf': gen_leaf, 'Tree': gen_tree, 'Local': gen_local, 'Huge': gen_huge, 'Policy': gen_policy, 'Toggle': gen_toggle, 'Check': gen_check, 'Meta': gen_meta}
+GENERATORS = {'Consts': gen_consts, 'Fza': gen_fza, 'Leaf': gen_leaf, 'Tree': gen_tree, 'Local': gen_local, 'Huge': gen_huge, 'Policy': gen_policy, 'Toggle': gen_toggle, 'Check': gen_check, 'Meta': gen_meta, 'Sbuf': gen_sbuf}
 
 def write_if_changed(path, txt):
     if os.path.exists(path) and read(path) == txt: return False
